@@ -50,6 +50,17 @@ def build_index(case):
     if how == 'collection':
         return SpatialIndex(TrackCollection([mk(t) for t in case['tracks']]), tuple(case['res']), case['margin'], verbose=False)
     net = Network()
+    if how == 'rebuild':
+        # a network indexed with the default grid, whose edge geometries are then replaced (each edge was a straight chord between its ends), indexed again the same way:
+        # the second index is the one queried
+        for k, t in enumerate(case['tracks']):
+            tr = mk([t[0], t[-1]])
+            net.addEdge(Edge(k + 1, tr), Node('s%d' % k, tr.getFirstObs().position), Node('t%d' % k, tr.getLastObs().position))
+        net.createSpatialIndex(verbose=False)
+        for k, t in enumerate(case['tracks']):
+            net.EDGES[net.getEdgeId(k)].geom = mk(t)
+        net.createSpatialIndex(verbose=False)
+        return net.spatial_index
     def add(k):
         tr = mk(case['tracks'][k])
         net.addEdge(Edge(k + 1, tr), Node('s%d' % k, tr.getFirstObs().position), Node('t%d' % k, tr.getLastObs().position))
@@ -299,6 +310,8 @@ def gen_neigh(rng, n, tier):
             if fx + 0.05 * cell <= W and fy <= H:
                 c['tracks'].append([[fx, fy], [fx + 0.05 * cell, fy]])
                 c['queries'].append([[qx, qy], 2.985 * cell])
+        if rng.random() < 0.2:
+            c['how'] = 'rebuild'; c['margin'] = 0.05
         out.append(c)
     return out
 
